@@ -481,7 +481,7 @@ def run(tier, seed):
         'correspondence_mismatches': res['n_mismatch'],
         'oracle_failures': res['n_oracle_fail'] + res2['n_oracle_fail'],
     }
-    coverage['partial_theorems'] = ['iencode_chunks (incremental encoder) and enc_dec_inverse are not proved in Lean: decided by the cienc/cenc correspondence and the all-partitions / round-trip oracles']
+    coverage['partial_theorems'] = ['the encode/decode inverse WITHOUT an encoding argument (detection from the written bytes) is not proved in Lean: decided by the round-trip oracle over the real codecs']
     assumptions = ["Python's own codecs (codecs.getincrementaldecoder / encoder) are chunking-invariant and agree with "
                    'their one-shot forms: abstract inner codec with that law in the Lean model',
                    'errors are compared by class (Unicode / Lookup / Value / Attribute)']
